@@ -5,7 +5,7 @@ import ast
 from ..program import AnalysisError, walk_local, dotted
 from ..analysis import Spec, src, class_const, const_value
 from ..deps import Deps
-from ..rules import (regex_match, substitute_locals, guard_paths, inside, before, GWF, EXC, mpt, need_func, stores_to, raise_class,
+from ..rules import (flow_canon, regex_match, substitute_locals, guard_paths, inside, before, GWF, EXC, mpt, need_func, stores_to, raise_class,
                      chained_assign_value, is_const, explicit_exits)
 from . import common
 from .c04 import signature, diff_sig
@@ -460,7 +460,8 @@ def upper_case(prog, an, rep):
         for n in walk_local(init.node, include_root=False):
             if isinstance(n, ast.Assign) and \
                     dotted(n.targets[0]) == 'self.' + attr and \
-                    src(n.value) == 'self.%s.upper()' % attr:
+                    flow_canon(an, init, n.value) == \
+                    'self.%s.upper()' % attr:
                 ok = True
         rep.check(ok, R, 'FeatureBranch.%s is upper-cased' % attr,
                   init.where(), 'lower-case ticket keys: %s is no longer '
